@@ -312,7 +312,7 @@ class PolyArr:
   def const(arr, sp: Space) -> 'PolyArr':
     arr = np.asarray(arr, dtype=float)
     flat = arr.reshape(-1)
-    nz = np.nonzero(flat)[0]
+    nz = np.nonzero((flat != 0) | np.isnan(flat))[0]
     M = sps.csr_matrix((flat[nz], (nz, np.zeros(len(nz), dtype=np.int64))),
                        shape=(flat.size, sp.ncols))
     return PolyArr(arr.shape, M, sp)
@@ -588,6 +588,16 @@ class PolyArr:
     lo = np.asarray(P @ L + N @ H).reshape(self.shape)
     hi = np.asarray(P @ H + N @ L).reshape(self.shape)
     return lo, hi
+
+  def nan_rows(self) -> np.ndarray:
+    """Boolean array: elements that are the constant NaN (missing values placed by the harness)."""
+    M = _csr(self.M)
+    out = np.zeros(self.size, bool)
+    bad = np.isnan(M.data)
+    if bad.any():
+      rows = np.repeat(np.arange(M.shape[0]), np.diff(M.indptr))
+      out[np.unique(rows[bad])] = True
+    return out.reshape(self.shape)
 
   def select_rows(self, mask) -> 'PolyArr':
     """Elements where mask is False are replaced by 0."""
